@@ -1375,3 +1375,9 @@ where
     };
     from_slice(data.as_slice())
 }
+
+/// Verification hooks (only with `--cfg sonic_rs_verif`)
+#[cfg(sonic_rs_verif)]
+pub mod verif_hooks {
+    pub const MAX_ALLOWED_DEPTH: usize = super::MAX_ALLOWED_DEPTH as usize;
+}
